@@ -83,6 +83,7 @@ type c04State struct {
 	started atomic.Int64
 	done    atomic.Int64
 	signal  chan struct{} // poked on every handler entry / exit
+	slow    bool          // a long wait already timed out in this case: keep the remaining ones short
 }
 
 func (st *c04State) poke() {
@@ -180,7 +181,18 @@ func (st *c04State) handler(kind, hid int) client.HandlerFunc {
 }
 
 // wait until cond() or the deadline; woken by handler activity
+// number of cases of this run in which a long wait timed out: a badly broken implementation must
+// not make the whole run take hours, so after a few of them the long waits are cut down
+var c04SlowCases int
+
 func (st *c04State) waitFor(d time.Duration, cond func() bool) bool {
+	if st.slow && d > 100*time.Millisecond {
+		d = 100 * time.Millisecond
+	}
+	if c04SlowCases >= 5 && d > 300*time.Millisecond {
+		d = 300 * time.Millisecond
+	}
+	long := d >= time.Second
 	deadline := time.Now().Add(d)
 	for {
 		if cond() {
@@ -188,6 +200,10 @@ func (st *c04State) waitFor(d time.Duration, cond func() bool) bool {
 		}
 		left := time.Until(deadline)
 		if left <= 0 {
+			if long && !st.slow {
+				st.slow = true
+				c04SlowCases++
+			}
 			return false
 		}
 		if left > 2*time.Millisecond {
@@ -631,8 +647,8 @@ func c04GenOne(r *Rand, race bool) Fields {
 	return in
 }
 
-// all histories of length <= 4 over 2 names x 2 handlers (sentinels registered first)
-func c04Exhaustive(emit func(Fields)) {
+// all histories of length <= maxLen over 2 names x 2 handlers (sentinels registered first)
+func c04Exhaustive(maxLen int, emit func(Fields)) {
 	type sym struct {
 		op, name string
 		hid      int
@@ -668,7 +684,7 @@ func c04Exhaustive(emit func(Fields)) {
 				emit(in)
 			}
 		}
-		if len(prefix) == 4 {
+		if len(prefix) == maxLen {
 			return
 		}
 		for _, x := range alpha {
@@ -686,6 +702,8 @@ func c04Gen(r *Rand, tier string, scale int, emit func(Fields)) {
 		emit(c04GenOne(r.Fork(), i%4 == 3))
 	}
 	if tier == "thorough" {
-		c04Exhaustive(emit)
+		c04Exhaustive(5, emit)
+	} else {
+		c04Exhaustive(3, emit)
 	}
 }
